@@ -255,6 +255,13 @@ func (s *state[C]) exec(t *testing.T, c C, probing bool) (err error) {
 	s.r.T = t
 	cur := any(c)
 	s.m.current.Store(&curCase{check: s.ck.Name, c: cur})
+	if breadcrumb != "" {
+		// The driver re-runs a shard that died of a fatal runtime error (stack overflow, ...) with this set: the case
+		// that is about to run is on disk when the process dies, and becomes the replay file.
+		doc := replayDoc{Property: s.m.Cfg.ID, Check: s.ck.Name, Message: "CRASH", Case: caseJSON(cur)}
+		out, _ := json.MarshalIndent(doc, "", " ")
+		os.WriteFile(breadcrumb, append(out, '\n'), 0o644)
+	}
 	run := func() {
 		defer func() {
 			if p := recover(); p != nil {
@@ -744,7 +751,12 @@ const (
 	exitMem  = 4
 )
 
+var breadcrumb = os.Getenv("VERIF_BREADCRUMB")
+
 func (m *Main) watchdog() (stop func()) {
+	// An unbounded recursion in the code under test ends at this stack size (the default, 1 GB per goroutine, times 16
+	// shards would take the machine down first); it is a fatal error all the same, which the driver turns into a replay file.
+	debug.SetMaxStack(128 << 20)
 	done := make(chan struct{})
 	hangAfter := time.Duration(envInt("VERIF_HANG_S", 30)) * time.Second
 	memLimit := uint64(envInt("VERIF_MEM_MB", 3072)) << 20
